@@ -302,7 +302,7 @@ def main(tier, replay=None):
         rnd.append({'ast': rand_tree(rng, rng.choice([2, 3, 4, 5, 6, 8, 12, 18, 25]), env, [0]), 'env': env})
     # deep nesting: left- and right-leaning chains (their full resp. minimal rendering nests one parenthesis
     # per operator) and a leaf under many unary minus signs
-    for depth in ((70, 100) if quick else (70, 100, 200, 400)):
+    for depth in ((70, 100) if quick else (70, 100, 200, 240)):     # (the JSON reader of the trace files nests at most 255 levels)
         for side in ('l', 'r'):
             for ops in (['-', '+'], ['-'], ['/', '*'], ['&']):
                 t = F.num('1')
